@@ -202,6 +202,10 @@ func (c01) Generate(seed uint64, tier string, index int) any {
 
 // sessionSucceeded checks the "must succeed" part shared by several oracles.
 func sessionSucceeded(res *Result, s *SessionResult, prefix string) bool {
+	if s.Harness != "" {
+		res.Inconclusive = prefix + s.Harness
+		return false
+	}
 	switch {
 	case s.Panic != "":
 		res.Violate("panic", panicSignature(s.Panic), prefix+s.Panic)
@@ -269,6 +273,9 @@ func (c01) Run(t *testing.T, scenario any, job *Job, res *Result) {
 		res.AddSession(s)
 		prefix := fmt.Sprintf("[schedule %d] ", i)
 		if !sessionSucceeded(res, s, prefix) {
+			if res.Violation == nil {
+				return // inconclusive (harness trouble)
+			}
 			if res.Violation.Kind == "client-error" || res.Violation.Kind == "server-error" {
 				res.Violation.Signature += inputTags(sc.Sync.Arr, "", sc.Sync.Sources)
 			}
